@@ -1,5 +1,9 @@
 # -*- coding: utf-8 -*-
 """C02 -- parsed trees mirror the source: structure, decoded values and spans."""
+import copy
+import json
+import os
+
 from py_gql.exc import GraphQLSyntaxError
 from py_gql.lang import ast as A, parse
 from py_gql.lang.parser import parse_type, parse_value
@@ -26,7 +30,10 @@ RULE = ("accepted texts from the grammar-directed generator (executable, SDL and
         "types; all 8 flag triples; random trivia; string pool with every escape, \\u forms, astral and "
         "U+0085/U+2028/U+00A0 characters, block strings with every indentation / blank-line pattern) plus "
         "accepted mutants; non-trivial = the tree has at least 4 nodes or contains a string literal; "
-        "distinct = distinct (entry, flags, text)")
+        "distinct = distinct (entry, flags, text, history); history cases first parse other texts and "
+        "edit every list of the returned trees in place (append a foreign node / clear), then parse the "
+        "case's text: its tree must still be the model's; on every case no list or node object may occur "
+        "twice in a tree or be shared with a tree returned by any other parse of the process")
 
 
 def case(entry, flags, text, origin):
@@ -54,7 +61,26 @@ def corpus():
              'fragment F($x: [Int!]! = [1] @a(b: {c: 2})) on T @z { ...G @q ... on U { a: b(c: [{d: $e}]) } ... { x } }',
              "corpus:kitchen"),
     ]
+    # history dimension: a tree returned earlier is edited in place; later parses must not see the edit
+    fx = (False, True, True)
+    texts = [("doc", f0, "{ a }"), ("doc", f0, "{ a @d b { c @e(x: 1) } ...F ... @i { g } }"),
+             ("doc", f0, "query Q @d { a } fragment F on T { b }"),
+             ("doc", ts, "type T @d { f: Int @e g(x: Int @h): Int } scalar S enum E { A B @d } input N { x: Int }"),
+             ("doc", ts, "schema { query: Q } extend scalar S @d union U directive @d on FIELD"),
+             ("doc", fx, "fragment F on T { a @d }"),
+             ("value", f0, "[[], {}, [1], {a: []}]"), ("value", f0, "{a: {b: []}}")]
+    for how in ("append", "clear"):
+        for ea, fa, ta in texts:
+            for eb, fb, tb in texts:
+                out.append(history_case(eb, fb, tb, [{"entry": ea, "flags": list(fa), "text": ta, "edit": how}],
+                                        "history:corpus-" + how))
     return out
+
+
+def history_case(entry, flags, text, history, origin):
+    c = case(entry, flags, text, origin)
+    c["history"] = history
+    return c
 
 
 def generate(rng, tier):
@@ -100,6 +126,23 @@ def generate(rng, tier):
         except Exception:   # reported by C01; not a tree
             continue
         kept.append(c)
+    # history stream: parse A (any entry / flags), edit every list of its tree in place, then parse B
+    # (B = A again every third time)
+    docs = [c for c in kept if len(c["text"]) < 400]
+    for i in range(120 if quick else 3000):
+        if not docs:
+            break
+        only = [c for c in docs if c["entry"] == "doc"] or docs
+        a = rng.choice(only if rng.random() < 0.8 else docs)
+        b = rng.choice(only if rng.random() < 0.8 else docs)
+        if i % 3 == 0:
+            b = a
+        steps = [{"entry": a["entry"], "flags": a["flags"], "text": a["text"],
+                  "edit": "append" if i % 4 else "clear"}]
+        if i % 5 == 0:
+            a2 = rng.choice(docs)
+            steps.append({"entry": a2["entry"], "flags": a2["flags"], "text": a2["text"], "edit": "append"})
+        kept.append(history_case(b["entry"], b["flags"], b["text"], steps, "history:" + b["origin"]))
     return kept
 
 
@@ -150,13 +193,165 @@ def _norm(d):
     return d
 
 
+def _walk(tree):
+    """(nodes, lists) below tree, as a TREE walk: an object reachable twice is listed twice;
+    each with a short path"""
+    nodes, lists, stack = [], [], [(tree, type(tree).__name__)]
+    while stack:
+        x, path = stack.pop()
+        if isinstance(x, A.Node):
+            nodes.append((x, path))
+            for s in x.__slots__:
+                if s not in ("source", "loc"):
+                    stack.append((getattr(x, s), "%s.%s" % (path if len(path) < 60 else "..." + path[-50:], s)))
+        elif isinstance(x, list):
+            lists.append((x, path))
+            for i, y in enumerate(x):
+                stack.append((y, "%s[%d]" % (path, i)))
+        elif isinstance(x, tuple):
+            for i, y in enumerate(x):
+                stack.append((y, "%s[%d]" % (path, i)))
+    return nodes, lists
+
+
+# every list / node object of every tree returned by a parse in this process, kept alive (so ids stay
+# unique) with the text it came from
+_EARLIER = {}
+
+
+def _aliasing(tree, text, others):
+    """model-free: no list / node object twice in the tree, none shared with `others` (trees of other
+    parses of the same case) nor with any tree returned earlier in this process"""
+    problems = []
+    nodes, lists = _walk(tree)
+    seen = {}
+    for x, path in lists + nodes:
+        kind = "list" if isinstance(x, list) else "node"
+        if id(x) in seen:
+            problems.append(["fresh-containers", "the same %s object is at %s and at %s of one tree"
+                             % (kind, seen[id(x)], path)])
+        else:
+            seen[id(x)] = path
+        if id(x) in _EARLIER and _EARLIER[id(x)][0] is x:
+            problems.append(["fresh-containers", "the %s at %s is the object at %s of the tree an earlier "
+                             "parse(%r) returned" % (kind, path, _EARLIER[id(x)][2], _EARLIER[id(x)][1][:60])])
+    for label, other in others:
+        on, ol = _walk(other)
+        for y, path in ol + on:
+            if id(y) in seen:
+                problems.append(["fresh-containers", "the %s at %s is shared with %s of %s"
+                                 % ("list" if isinstance(y, list) else "node", seen[id(y)], path, label)])
+    for tr in [tree] + [o for _, o in others]:
+        n2, l2 = _walk(tr)
+        for x, path in l2 + n2:
+            _EARLIER.setdefault(id(x), (x, text, path))
+    return problems[:2]
+
+
+_DONOR_TEXT = """
+query zz($zz: zz @zz) @zz(zz: [zz], zz: {zz: zz}) { zz @zz ...zz @zz ... @zz { zz } }
+fragment zz($zz: zz) on zz @zz { zz(zz: zz) }
+schema @zz { query: zz } extend schema @zz { query: zz }
+scalar zz @zz extend scalar zz @zz
+type zz implements zz @zz { zz(zz: zz @zz): zz @zz } extend type zz implements zz @zz { zz: zz }
+interface zz @zz { zz: zz } extend interface zz @zz { zz: zz }
+union zz @zz = zz extend union zz @zz = zz
+enum zz @zz { zz @zz } extend enum zz @zz { zz }
+input zz @zz { zz: zz @zz } extend input zz @zz { zz: zz }
+directive @zz(zz: zz) on FIELD
+"""
+_DONORS = {}
+
+
+def _donor(node, slot, lst):
+    """a foreign element of the right class for the list node.slot (every name in it is zz)"""
+    if not _DONORS:
+        tree = parse(_DONOR_TEXT, allow_type_system=True, experimental_fragment_variables=True)
+        for x, _ in _walk(tree)[0]:
+            for s in x.__slots__:
+                v = getattr(x, s)
+                if s not in ("source", "loc") and isinstance(v, list) and v:
+                    _DONORS.setdefault((type(x).__name__, s), v[0])
+    d = _DONORS.get((type(node).__name__, slot))
+    if d is None and lst:
+        d = lst[0]
+    return copy.deepcopy(d) if d is not None else None
+
+
+def _edit_in_place(tree, how):
+    """an ordinary in-place edit of every list of a returned tree"""
+    n = 0
+    for x, _ in _walk(tree)[0]:
+        for s in x.__slots__:
+            v = getattr(x, s)
+            if s in ("source", "loc") or not isinstance(v, list):
+                continue
+            if how == "clear":
+                del v[:]
+                n += 1
+            else:
+                d = _donor(x, s, v)
+                if d is not None:
+                    v.append(d)
+                    n += 1
+    return n
+
+
 def run_impl(c):
+    """history cases edit trees in place; if the library shares state between parses such an edit
+    would stay in this process and change every later case (and make a replay in a fresh process
+    differ).  They therefore run in a forked child each: the edit history of a case is exactly the
+    one written in the case."""
+    if "history" not in c or not hasattr(os, "fork"):
+        return _run_case(c)
+    r, w = os.pipe()
+    pid = os.fork()
+    if pid == 0:
+        code = 0
+        try:
+            os.close(r)
+            try:
+                data = json.dumps(_run_case(c))
+            except GraphQLSyntaxError:
+                raise
+            except BaseException as e:  # noqa
+                data = json.dumps({"tree": None, "node_counts": {},
+                                   "problems": [["history", "%s: %s" % (type(e).__name__, str(e)[:200])]]})
+            with os.fdopen(w, "w") as f:
+                f.write(data)
+        except BaseException:  # noqa
+            code = 1
+        finally:
+            os._exit(code)
+    os.close(w)
+    with os.fdopen(r) as f:
+        data = f.read()
+    os.waitpid(pid, 0)
+    if not data:
+        return {"tree": None, "node_counts": {}, "problems": [["history", "the child process died"]]}
+    return json.loads(data)
+
+
+def _run_case(c):
     text, flags = c["text"], c["flags"]
+    edited = 0
+    for step in c.get("history", []):
+        try:
+            earlier = _parse(step["entry"], step["flags"], step["text"])
+        except Exception:  # noqa  (C01's business)
+            continue
+        edited += _edit_in_place(earlier, step["edit"])
     try:
         tree = _parse(c["entry"], flags, text)
     except GraphQLSyntaxError as e:
         return {"rejected": type(e).__name__}
     problems = []
+    try:
+        others = [("a second parse of the same text", _parse(c["entry"], flags, text))]
+    except Exception as e:  # noqa
+        others = []
+        problems.append(["history", "a second parse of the same text raised %s" % type(e).__name__])
+    problems += _aliasing(tree, text, others)
     nodes = _nodes(tree)
     # every node records the submitted text
     bad_src = sorted({type(x).__name__ for x in nodes if x.source != text})
@@ -194,7 +389,14 @@ def run_impl(c):
         if not ok and len(problems) < 5:
             problems.append(["reparse-span", "%s spanning %r does not parse back to an equal node"
                              % (type(x).__name__, text[a:b][:80])])
-    o = {"tree": _ser(c["entry"], tree), "node_counts": counts}
+    try:
+        o = {"tree": _ser(c["entry"], tree), "node_counts": counts}
+    except Exception as e:  # noqa  (a tree with foreign nodes where the grammar has none)
+        o = {"tree": None, "node_counts": counts}
+        problems.append(["tree-mirrors-source", "the tree cannot be serialised: %s: %s"
+                         % (type(e).__name__, str(e)[:120])])
+    if "history" in c:
+        o["lists_edited"] = edited
     # UTF-8 bytes give the same tree
     try:
         b = text.encode("utf8")
@@ -203,6 +405,7 @@ def run_impl(c):
     if b is not None:
         try:
             tb = _parse(c["entry"], flags, b)
+            problems += _aliasing(tb, text, [("the tree of the str input", tree)])
             if _ser(c["entry"], tb) != o["tree"]:
                 problems.append(["utf8-bytes", "tree differs for the UTF-8 encoded text"])
             if any(x.source != text for x in _nodes(tb)):
@@ -216,7 +419,7 @@ def run_impl(c):
 
 def to_coq(c, obs):
     src = ser.cstr(c["text"]) if c["text"] else "[]"
-    if "rejected" in obs:
+    if "rejected" in obs or obs.get("tree") is None:
         o = "ObsRejected"
     else:
         o = "(%s %s)" % ({"doc": "ObsDoc", "value": "ObsValue", "type": "ObsType"}[c["entry"]], obs["tree"])
@@ -229,14 +432,15 @@ def show_expr(c, obs):
 
 
 def nontrivial(c, obs):
-    if "tree" not in obs:
+    if not obs.get("tree"):
         return False
     n = sum(obs["node_counts"].values())
     return n >= 4 or "StringValue" in obs["node_counts"]
 
 
 def canonical(c):
-    return (c["entry"], tuple(c["flags"]), c["text"])
+    return (c["entry"], tuple(c["flags"]), c["text"],
+            tuple((h["entry"], tuple(h["flags"]), h["text"], h["edit"]) for h in c.get("history", [])))
 
 
 def classify(c, obs):
@@ -247,7 +451,26 @@ def direct_checks(c, obs):
     return [("%s: %s" % (k, msg), None) for k, msg in obs.get("problems", [])]
 
 
-shrink = c01.shrink
+def shrink(c, is_bad):
+    if "history" in c:
+        # shorten the history first, then the texts of the remaining steps, then the text itself
+        hist = list(c["history"])
+        i = 0
+        while i < len(hist) and len(hist) > 1:
+            cand = dict(c, history=hist[:i] + hist[i + 1:])
+            if is_bad(cand):
+                hist = cand["history"]
+            else:
+                i += 1
+        c = dict(c, history=hist)
+        for i in range(len(hist)):
+            step = hist[i]
+            small = c01.shrink({"entry": step["entry"], "text": step["text"]},
+                               lambda k: is_bad(dict(c, history=hist[:i] + [dict(step, text=k["text"])]
+                                                     + hist[i + 1:])))
+            hist = hist[:i] + [dict(step, text=small["text"])] + hist[i + 1:]
+            c = dict(c, history=hist)
+    return c01.shrink(c, is_bad)
 
 
 def extra_evidence(cases, obss):
@@ -258,7 +481,12 @@ def extra_evidence(cases, obss):
         for k, v in o.get("node_counts", {}).items():
             kinds[k] = kinds.get(k, 0) + v
     blocks = sum(1 for c in cases if '"""' in c["text"])
-    return {"distribution": {"node_kinds": kinds, "origins": origins, "entries": entries,
+    hist = [(c, o) for c, o in zip(cases, obss) if "history" in c]
+    return {"history": {"cases": len(hist), "lists_edited_in_place": sum(o.get("lists_edited", 0) for _, o in hist),
+                        "same_text_parsed_again": sum(1 for c, _ in hist
+                                                      if any(h["text"] == c["text"] for h in c["history"])),
+                        "objects_kept_alive_for_the_sharing_check": len(_EARLIER)},
+            "distribution": {"node_kinds": kinds, "origins": origins, "entries": entries,
                              "texts_with_block_strings": blocks,
                              "texts_with_escapes": sum(1 for c in cases if "\\" in c["text"]),
                              "no_location_cases": sum(1 for c in cases if c["flags"][0]),
